@@ -228,3 +228,29 @@ func VerifH_C11_close_aborts_data_request() {
 		verif.Assert(first.w.status[0] == 200, "and it is 'ok' when nothing interfered")
 	}
 }
+
+// VerifH_C11_compressed_poll_answered: an accepted poll whose answer goes through HTTP
+// compression receives exactly one response, whatever spelling of the content codings its
+// Accept-Encoding uses (codings are case-insensitive), and the buffered packets are not lost.
+func VerifH_C11_compressed_poll_answered() {
+	w := newPollWorld("4")
+	w.p.SetHttpCompression(&types.HttpCompression{Threshold: 0})
+	ae := c16Accept[verif.Choose(len(c16Accept))]
+	r := w.request("GET", "poll", "")
+	if ae != "" {
+		r.ctx.Request().Header.Set("Accept-Encoding", ae)
+		r.ctx.Headers().Set("Accept-Encoding", ae)
+	}
+	w.p.OnRequest(r.ctx)
+	w.p.Send([]*packet.Packet{{Type: packet.MESSAGE, Data: types.NewStringBufferString("out"), Options: &packet.Options{Compress: verif.Bool()}}})
+	verif.Settle()
+	verif.Assert(r.w.writeCalls == 1 && len(r.w.status) == 1 && r.w.status[0] == 200, "the accepted poll receives exactly one response")
+	if r.w.writeCalls == 1 {
+		enc := r.w.hdr.Get("Content-Encoding")
+		dec, ok := r.w.bodies[0], true
+		if enc != "" {
+			dec, ok = decodeBody(enc, r.w.bodies[0])
+		}
+		verif.Assert(ok && string(dec) == "4out", "and it carries the buffered packet")
+	}
+}
